@@ -280,23 +280,26 @@ pub fn helper_fn(hid: u8) -> rbpf::Helper {
 
 pub const N_CALCS: u8 = 4;
 
-pub fn calc_value(cid: u8, pc: usize) -> u16 {
+/// Frame size the calculator `cid` reports for the function at `pc` of the program whose tag
+/// byte is `tag`: calculators 1 and 3 depend on the *program*, so that a table (or a cache) kept
+/// from an earlier program is visible.
+pub fn calc_value(cid: u8, pc: usize, tag: u8) -> u16 {
     match cid {
         0 => 64,
-        1 => 16 + 8 * (pc % 4) as u16,
+        1 => 16 + 8 * (pc % 4) as u16 + 32 * (tag % 5) as u16,
         2 => 0,
-        _ => 128 + (pc as u16 % 7) * 16,
+        _ => 128 + (pc as u16 % 7) * 16 + (tag as u16 % 3) * 8,
     }
 }
 
-fn calc_fn(_prog: &[u8], pc: usize, data: &mut dyn Any) -> u16 {
+fn calc_fn(prog: &[u8], pc: usize, data: &mut dyn Any) -> u16 {
     // rbpf hands the callback its `Box<dyn Any>` itself (as `&mut dyn Any`), not the boxed value
     let cid = match data.downcast_ref::<u8>() {
         Some(c) => *c,
         None => *data.downcast_ref::<Box<dyn Any>>().and_then(|b| b.downcast_ref::<u8>()).expect("calculator data"),
     };
     tls(|t| t.calc_calls += 1);
-    calc_value(cid, pc)
+    calc_value(cid, pc, if prog.len() >= 8 { prog[4] } else { 0 })
 }
 
 // ---------------------------------------------------------------------------------------------
